@@ -819,6 +819,99 @@ type levelSite struct {
 	width  string
 	pos    string
 	order  int
+	wv     ssa.Value // the width argument
+}
+
+// minimalWidth: v is bits.Len*(max) of a maximum-level field (through integer conversions and pure one-expression
+// helpers) — the width the format prescribes: the smallest number of bits that holds the column's maximum level.
+// Returns the field whose bit length is taken.
+func minimalWidth(u *Universe, v ssa.Value, bind map[*ssa.Parameter]ssa.Value, depth int) *types.Var {
+	if depth > 8 {
+		return nil
+	}
+	switch x := v.(type) {
+	case *ssa.Convert:
+		return minimalWidth(u, x.X, bind, depth+1)
+	case *ssa.ChangeType:
+		return minimalWidth(u, x.X, bind, depth+1)
+	case *ssa.Parameter:
+		if b, ok := bind[x]; ok {
+			return minimalWidth(u, b, nil, depth+1)
+		}
+	case *ssa.BinOp:
+		// N - bits.LeadingZerosN(max)
+		if x.Op == token.SUB {
+			if k, ok := x.X.(*ssa.Const); ok && k.Value != nil {
+				if call, ok := stripConvert(x.Y).(*ssa.Call); ok {
+					if sc := call.Call.StaticCallee(); sc != nil && sc.Pkg != nil && sc.Pkg.Pkg.Path() == "math/bits" && strings.HasPrefix(sc.Name(), "LeadingZeros") {
+						n, _ := constant.Int64Val(k.Value)
+						arg := call.Call.Args[0]
+						if w, _ := intWidth(arg.Type()); int64(w) == n || (w == 0 && n == 64) {
+							return widthOperand(u, arg, bind, depth+1)
+						}
+					}
+				}
+			}
+		}
+	case *ssa.Call:
+		sc := x.Call.StaticCallee()
+		if sc == nil {
+			return nil
+		}
+		if sc.Pkg != nil && sc.Pkg.Pkg.Path() == "math/bits" && strings.HasPrefix(sc.Name(), "Len") {
+			return widthOperand(u, x.Call.Args[0], bind, depth+1)
+		}
+		if u.InUniverse(sc) && len(sc.Blocks) == 1 && sc.Signature.Results().Len() == 1 && pureBlock(sc.Blocks[0]) {
+			if ret, ok := sc.Blocks[0].Instrs[len(sc.Blocks[0].Instrs)-1].(*ssa.Return); ok {
+				nb := map[*ssa.Parameter]ssa.Value{}
+				for i, a := range callArgs(&x.Call) {
+					if i < len(sc.Params) {
+						if p, isP := a.(*ssa.Parameter); isP && bind[p] != nil {
+							a = bind[p]
+						}
+						nb[sc.Params[i]] = a
+					}
+				}
+				return minimalWidth(u, ret.Results[0], nb, depth+1)
+			}
+		}
+	}
+	return nil
+}
+
+// widthOperand: the operand of the bit-length computation is a load of a struct field, through widening conversions only.
+func widthOperand(u *Universe, v ssa.Value, bind map[*ssa.Parameter]ssa.Value, depth int) *types.Var {
+	for depth < 12 {
+		depth++
+		switch x := v.(type) {
+		case *ssa.Convert:
+			// a narrowing conversion would drop high bits of the maximum
+			wf, _ := intWidth(x.X.Type())
+			wt, _ := intWidth(x.Type())
+			if wf == 0 {
+				wf = 64
+			}
+			if wt == 0 {
+				wt = 64
+			}
+			if wt < wf {
+				return nil
+			}
+			v = x.X
+			continue
+		case *ssa.ChangeType:
+			v = x.X
+			continue
+		case *ssa.Parameter:
+			if b, ok := bind[x]; ok {
+				v, bind = b, nil
+				continue
+			}
+			return nil
+		}
+		return fieldOfLoad(v)
+	}
+	return nil
 }
 
 func laOrder(c *Ctx, rule string) {
@@ -922,7 +1015,7 @@ func laOrder(c *Ctx, rule string) {
 					sort.Strings(g)
 					switch {
 					case sc == helper:
-						ls := levelSite{guards: g, width: symExpr(call.Call.Args[widx], 0), pos: u.Pos(call.Pos()), order: len(sites) + 1}
+						ls := levelSite{guards: g, width: symExpr(call.Call.Args[widx], 0), pos: u.Pos(call.Pos()), order: len(sites) + 1, wv: call.Call.Args[widx]}
 						if writer {
 							for _, a := range call.Call.Args {
 								if f2 := fieldOfLoad(a); f2 != nil {
@@ -981,6 +1074,28 @@ func laOrder(c *Ctx, rule string) {
 			r.ok(rule, k, w.pos, fmt.Sprintf("%s under %v, width %s on both sides (reader at %s)", w.level, wg, w.width, rd.pos))
 		}
 	}
+	// LA-width: each side's width is the minimal bit width of that stream's maximum level — the width every other
+	// implementation derives from the schema (a writer and reader that agree on a wider width still round-trip)
+	for _, side := range []struct {
+		name  string
+		sites []levelSite
+	}{{"writer", wl}, {"reader", rl}} {
+		for i, ls := range side.sites {
+			k := fmt.Sprintf("%s %s stream %d width", key, side.name, i+1)
+			r.count(rule+"/widths", 1)
+			fld := minimalWidth(u, ls.wv, nil, 0)
+			want := strings.TrimSuffix(ls.level, "s") // Defs -> Def, Reps -> Rep
+			switch {
+			case fld == nil:
+				r.bad(rule, k, ls.pos, "the bit width of the "+ls.level+" stream is "+ls.width+", not bits.Len(maximum level): the Parquet format fixes the width of a level stream to the minimal number of bits holding the column's maximum level, which is what a reader that knows only the schema uses")
+			case fld.Name() != want:
+				r.bad(rule, k, ls.pos, fmt.Sprintf("the bit width of the %s stream is taken from %s, want the maximum %s level", ls.level, fld.Name(), want))
+			default:
+				r.ok(rule, k, ls.pos, "width = bits.Len("+fld.Name()+")")
+			}
+		}
+	}
+	r.floor(rule+"/widths", 4, "2 writer + 2 reader level streams")
 	r.floor(rule+"/level-sites", 2, "2 writeLevels in OptionalField.DoWrite, 2 readLevels in OptionalField.DoRead")
 }
 
